@@ -11,6 +11,9 @@ import MTProofs.Graph
 import MTProofs.Select
 import MTProofs.MassBalance
 import MTProps.C02
+import MTProps.C17
+import MTProps.C05
+import MTProofs.Invariants
 import MT.Main
 
 namespace MTProps.C11
@@ -136,21 +139,27 @@ theorem undirected_reverse_factorize {α : Type} [Add α] [Sub α] [Mul α] [Div
 section symmetric
 open Finset
 
-/-- with symmetric multiplicities and a symmetric affinity the rate is symmetric -/
-theorem rate_symm (K : Nat) (w : Nat → Nat → Nat → ℝ) (hw : ∀ k q a, w k q a = w q k a)
-    (u : Nat → Nat → ℝ) (i j a : Nat) : rate false K w u u i j a = rate false K w u u j i a := by
+/-- symmetry of an affinity accessor on the index range that exists -/
+def SymW (K L : Nat) (w : Nat → Nat → Nat → ℝ) : Prop :=
+  ∀ k q a, k < K → q < K → a < L → w k q a = w q k a
+
+/-- with a symmetric affinity the rate of the single-membership model is symmetric -/
+theorem rate_symm (K L : Nat) (w : Nat → Nat → Nat → ℝ) (hw : SymW K L w)
+    (u : Nat → Nat → ℝ) (i j : Nat) {a : Nat} (ha : a < L) :
+    rate false K w u u i j a = rate false K w u u j i a := by
   unfold rate gsum
   simp only [Bool.false_eq_true, ↓reduceIte]
   rw [sum_comm]
-  apply sum_congr rfl; intro q _
-  apply sum_congr rfl; intro k _
-  rw [hw k q a]; ring
+  apply sum_congr rfl; intro q hq
+  apply sum_congr rfl; intro k hk
+  rw [hw k q a (mem_range.mp hk) (mem_range.mp hq) ha]; ring
 
 /-- **the affinity step preserves symmetry** in undirected mode (single membership matrix, one shared
 vertex list, symmetric multiplicities) -/
-theorem specWEntry_symm (K N : Nat) (U : List Nat) (out : Nat → Nat → List Nat)
+theorem specWEntry_symm (K L N : Nat) (U : List Nat) (out : Nat → Nat → List Nat)
     (hA : ∀ a i j, (out a i).count j = (out a j).count i)
-    (u : Nat → Nat → ℝ) (w : Nat → Nat → Nat → ℝ) (hw : ∀ k q a, w k q a = w q k a) (k q a : Nat) :
+    (u : Nat → Nat → ℝ) (w : Nat → Nat → Nat → ℝ) (hw : SymW K L w) {k q a : Nat}
+    (hk : k < K) (hq : q < K) (ha : a < L) :
     specWEntry false K N U U out u u w k q a = specWEntry false K N U U out u u w q k a := by
   have hZ : specWZ U U u u k q = specWZ U U u u q k := by unfold specWZ; ring
   have hacc : specWAcc false K N out u u w k q a = specWAcc false K N out u u w q k a := by
@@ -159,26 +168,111 @@ theorem specWEntry_symm (K N : Nat) (U : List Nat) (out : Nat → Nat → List N
     rw [sum_comm]
     apply sum_congr rfl; intro j _
     apply sum_congr rfl; intro i _
-    rw [hA a i j, rate_symm K w hw u i j a]
+    rw [hA a i j, rate_symm K L w hw u i j ha]
     split <;> ring
   unfold specWEntry
-  rw [hZ, hacc, hw k q a]
+  rw [hZ, hacc, hw k q a hk hq ha]
+
+/-- symmetry of the stored affinity tensor of a state -/
+def StateSym (K L : Nat) (s : State ℝ) : Prop := SymW K L (fun k q a => s.w.get k q a)
 
 /-- on the model's states: an undirected general sweep maps a symmetric affinity to a symmetric one
-(the u-step does not touch `w`; the random start is symmetric by C17 `random_affinity_symmetric`) -/
+(the u-step does not touch `w`) -/
 theorem w_symmetric_invariant (K : Nat) (nv : NetView) (s : State ℝ) (hd : nv.directed = false)
     (hwf : MTProps.C02.ViewWF nv s.u.R) (hA : ∀ a i j, (nv.out a i).count j = (nv.out a j).count i)
-    (hlist : nv.vList = nv.uList)
-    (hsym : ∀ k q a, wView false false s.w k q a = wView false false s.w q k a)
-    {k q a : Nat} (hk : k < K) (hq : q < K) (ha : a < nv.nL) :
-    (sweep false K nv s).w.get k q a = (sweep false K nv s).w.get q k a := by
+    (hlist : nv.vList = nv.uList) (hsym : StateSym K nv.nL s) :
+    StateSym K nv.nL (sweep false K nv s) := by
+  intro k q a hk hq ha
+  show (sweep false K nv s).w.get k q a = (sweep false K nv s).w.get q k a
   unfold sweep
   rw [MTProps.C02.stepV_undirected false K nv _ hd]
   have h1 := MTProps.C02.stepW_entry_general K nv (stepU false K nv s) hwf hk hq ha
   have h2 := MTProps.C02.stepW_entry_general K nv (stepU false K nv s) hwf hq hk ha
   rw [h1, h2]
   simp only [hd, Bool.false_eq_true, ↓reduceIte, hlist]
-  exact specWEntry_symm K _ nv.uList nv.out hA _ _ hsym k q a
+  refine specWEntry_symm K nv.nL _ nv.uList nv.out hA _ _ ?_ hk hq ha
+  intro k' q' a' hk' hq' ha'
+  exact hsym k' q' a' hk' hq' ha'
+
+/-- … hence after any number of sweeps -/
+theorem w_symmetric_iterate (K : Nat) (nv : NetView) (s : State ℝ) (hd : nv.directed = false)
+    (hwf : MTProps.C02.ViewWF nv s.u.R) (hA : ∀ a i j, (nv.out a i).count j = (nv.out a j).count i)
+    (hlist : nv.vList = nv.uList) (hsym : StateSym K nv.nL s) (n : Nat) :
+    StateSym K nv.nL ((sweep false K nv)^[n] s) := by
+  induction n generalizing s with
+  | zero => exact hsym
+  | succ n ih =>
+    rw [Function.iterate_succ_apply]
+    exact ih _ (by rw [sweep_R]; exact hwf) (w_symmetric_invariant K nv s hd hwf hA hlist hsym)
+
+/-- **C11, last clause, over ℝ**: from the random start of an undirected general realization the
+affinity of every layer is symmetric after every number of sweeps, for every draw stream -/
+theorem random_start_affinity_symmetric (K N : Nat) (nv : NetView) (hd : nv.directed = false)
+    (hwf : MTProps.C02.ViewWF nv N) (hA : ∀ a i j, (nv.out a i).count j = (nv.out a j).count i)
+    (hlist : nv.vList = nv.uList) (userW : Tens ℝ) (d : Nat → ℝ) (n : Nat) :
+    StateSym K nv.nL ((sweep false K nv)^[n] (realizationStart false .random K N nv userW d).1) := by
+  apply w_symmetric_iterate K nv _ hd (by exact hwf) hA hlist
+  intro k q a hk hq ha
+  exact MTProps.C17.random_affinity_symmetric K nv.nL d hk hq ha
+
+/-- every undirected network built from an edge list provides the hypotheses above -/
+theorem built_undirected_view {β ω : Type} [DecidableEq β] [Weight ω] (starts ends : List β) (weights : List ω) :
+    let n := build false starts ends weights
+    n.view.directed = false ∧ MTProps.C02.ViewWF n.view n.labels.length ∧
+    (∀ a i j, (n.view.out a i).count j = (n.view.out a j).count i) ∧ n.view.vList = n.view.uList := by
+  intro n
+  have hdir : n.directed = false := rfl
+  have hrecs := build_recs_lt false starts ends weights
+  refine ⟨rfl, MTProps.C02.built_view_wf false starts ends weights, ?_, ?_⟩
+  · intro a i j
+    rw [view_out, view_out]
+    by_cases ha : a < n.nL
+    · have hnV : n.nV = n.labels.length := by unfold Net.nV; rw [if_neg (by omega)]
+      by_cases hi : i < n.nV <;> by_cases hj : j < n.nV
+      · simp only [ha, hi, hj, and_self, ↓reduceIte]
+        exact out_count_symm n hdir a i j
+      · simp only [ha, hi, hj, and_false, and_self, ↓reduceIte, List.count_nil]
+        rw [List.count_eq_zero]
+        intro hmem
+        have h1 : j < n.labels.length := out_lt_of_recs n _ hrecs a i j hmem
+        omega
+      · simp only [ha, hi, hj, and_false, and_self, ↓reduceIte, List.count_nil]
+        symm
+        rw [List.count_eq_zero]
+        intro hmem
+        have h1 : i < n.labels.length := out_lt_of_recs n _ hrecs a j i hmem
+        omega
+      · simp [ha, hi, hj]
+    · simp [ha]
+  · show n.vList = n.uList
+    unfold Net.vList; simp [hdir]
+
+/-- **C11, last clause, end to end over ℝ**: for every edge list, every K and every draw stream, the
+affinity of an undirected general realization started randomly is symmetric after every sweep -/
+theorem built_random_start_affinity_symmetric {β ω : Type} [DecidableEq β] [Weight ω]
+    (starts ends : List β) (weights : List ω) (K : Nat) (userW : Tens ℝ) (d : Nat → ℝ) (n : Nat) :
+    let net := build false starts ends weights
+    StateSym K net.view.nL ((sweep false K net.view)^[n]
+      (realizationStart false .random K net.labels.length net.view userW d).1) := by
+  intro net
+  obtain ⟨h1, h2, h3, h4⟩ := built_undirected_view starts ends weights
+  exact random_start_affinity_symmetric K net.labels.length net.view h1 h2 h3 h4 userW d n
+
+/-- … in particular the factors a realization ends with (whatever the stopping rule decided) -/
+theorem realization_final_affinity_symmetric (K N : Nat) (nv : NetView) (hd : nv.directed = false)
+    (hwf : MTProps.C02.ViewWF nv N) (hA : ∀ a i j, (nv.out a i).count j = (nv.out a j).count i)
+    (hlist : nv.vList = nv.uList) (maxIt nConv : Nat) (hM : 1 ≤ maxIt) (hC : 1 ≤ nConv)
+    (evalL : Nat → State ℝ → ℝ) (userW : Tens ℝ) (d : Nat → ℝ) :
+    StateSym K nv.nL (runRealization false .random K N nv maxIt nConv evalL userW d).final := by
+  have hb := MTProps.C05.iterations_bounds false K nv maxIt nConv evalL
+    (realizationStart false .random K N nv userW d).1 hM hC
+  simp only at hb
+  have hfin : (runRealization false .random K N nv maxIt nConv evalL userW d).final =
+      (sweep false K nv)^[(runLoop false K nv maxIt nConv evalL maxIt
+        (realizationStart false .random K N nv userW d).1 ctlInit).2.1.iteration]
+        (realizationStart false .random K N nv userW d).1 := hb.2.2.2
+  rw [hfin]
+  exact random_start_affinity_symmetric K N nv hd hwf hA hlist userW d _
 
 end symmetric
 
